@@ -5,6 +5,7 @@ import (
 	gotoken "go/token"
 	"os"
 	"path/filepath"
+	"strings"
 )
 
 func (c *context) PreParseGo() bool {
@@ -18,6 +19,7 @@ func (c *context) PreParseGo() bool {
 	for _, dirEntry := range dirEntries {
 		if !dirEntry.IsDir() &&
 			filepath.Ext(dirEntry.Name()) == ".go" &&
+			!strings.HasSuffix(dirEntry.Name(), "_test.go") &&
 			dirEntry.Name() != baseGenGo &&
 			dirEntry.Name() != lexerGenGo &&
 			dirEntry.Name() != parserGenGo {
